@@ -118,7 +118,9 @@ def check_unit(case, rec):
     # many cells: the same cells laid end to end k times give the same results k times over (statistics of the valid
     # cells -- minimum, maximum, mean, population spread -- do not change when every cell is repeated)
     k = case.get("rep")
-    if k and st0 == "ok" and n_cells and not fails:
+    distinct_valid = len(set(x for a in base_arrays for x in numpy.ma.compressed(a).tolist()))
+    if k and st0 == "ok" and n_cells and not fails and not (cmd in R.STATISTICAL and (distinct_valid < 2 or tol > 1e-9)):
+        # (single-precision statistics over many cells accumulate more error than any fixed tolerance: not replicated)
         big = [numpy.ma.concatenate([a] * k) if numpy.ma.isMaskedArray(a) else numpy.concatenate([a] * k) for a in base_arrays]
         big = [numpy.ma.array(b, copy=False) for b in big]
         st4, r4 = A.run_command(cmd, big, case["params"])
@@ -139,7 +141,7 @@ def check_unit(case, rec):
 
 @st.composite
 def perm_case(draw):
-    case = draw(G.unit_case(CMDS, max_rank=1, max_cells=24, two_distinct=True, dtypes=("float64", "int64", "float64", "int64", "float32", "int32")))
+    case = draw(G.unit_case(CMDS, max_rank=1, max_cells=24, two_distinct=True, close=True, dtypes=("float64", "int64", "float64", "int64", "float32", "int32")))
     n = len(case["arrays"][0]["data"])
     case["perm"] = list(draw(st.permutations(list(range(n)))))
     case["shape"] = [n]
